@@ -26,9 +26,39 @@ def _one(ctx, sc, entry, stats, sample=False):
         ctx.sample({"scenario": {"cfg": sc["cfg"], "call0": sc["calls"][0]}, **common.describe(recs[0], 30)})
 
 
+def numbering(ctx, sc, entry):
+    """'with the true attempt number': the attempt a strategy call / retry event names is the attempt that was started last
+    (the on_attempt_start hook is the library's own statement of which attempt begins)."""
+    recs, h, w = rig.run(sc, entry)
+    ctx.inc("runs")
+    ctx.inc("calls", len(recs))
+    for rec in recs:
+        cur = None
+        for ev in rec.trace:
+            if ev[0] == "astart":
+                cur = ev[2]
+            elif cur is not None and (ev[0] == "strategy" or (ev[0] == "metric" and ev[1] == "retry")):
+                ctx.inc("attempt_numbers_checked")
+                if rec.fault_fired:
+                    ctx.inc("attempt_numbers_checked_after_a_contained_hook_error")
+                if ev[2] != cur:
+                    what = "strategy was called" if ev[0] == "strategy" else "retry event was emitted"
+                    ctx.viol("wrong-attempt-number", f"[{entry} call#{rec.idx}] {what} with attempt={ev[2]} while attempt {cur} was the one started last (fault plan {sc.get('fault')})", common.payload(sc, entry, rec.idx))
+                    return
+
+
 def work(ctx, tier):
     stats = {}
     rng = common.rng_for(ctx, "main")
+    # attempt numbering, also when an attempt hook fails in one particular attempt and execute() contains the error as a failed attempt
+    for k in range((600 if tier == "quick" else 12000) // ctx.nshards):
+        sc = gen.rand_scenario(rng, max_attempts=(3, 6), p_special=0.0, p_budget=0.2, p_handler=0.2, p_abort=0.0, ncalls=(1, 2), placements=False)
+        sc["place"]["hooks"] = rng.choice(["call", "policy", "both"])
+        if k % 3:
+            sc["fault"] = {"kind": "cb", "cb": rng.choice(["astart", "astart", "aend"]), "at": rng.choice([0, 1, 1, 2, 3]), "exc": rng.choice(["RuntimeError", "ValueError", "KeyError"])}
+        for e in common.pick_entries(rng, rig.EXECUTE_ENTRIES if sc.get("fault") else rig.ENTRIES, 3):
+            numbering(ctx, sc, e)
+        ctx.inc("numbering_scenarios")
     n = (12000 if tier == "quick" else 300000) // ctx.nshards
     for k in range(n):
         sc = gen.rand_scenario(rng, p_special=0.03, specials=("abort", "nested_open"), p_budget=0.25, p_handler=0.4, p_abort=0.1, ncalls=(1, 2), placements=(k % 4 == 0), nonretry_bias=True,
@@ -72,12 +102,15 @@ def conclude(ctx):
         "strategy_entry:per-class/context": (ctx.cnt["strategy_entry:per-class/context"], 300),
         "strategy_entry:per-class/legacy": (ctx.cnt["strategy_entry:per-class/legacy"], 100),
         "strategy_entry:default/context": (ctx.cnt["strategy_entry:default/context"], 300),
+        "attempt_numbers_checked": (ctx.cnt["attempt_numbers_checked"], 1000),
+        "attempt_numbers_checked_after_a_contained_hook_error": (ctx.cnt["attempt_numbers_checked_after_a_contained_hook_error"], 200),
     }
     return dict(
         rule=(
             "random scenarios with arbitrary strategy tables (any subset of the 8 classes, default present/absent, legacy/context signatures), return values from "
             "{0, -0.0, grid, NaN, +-inf, -1, 1e9, exact remainder, remainder + step} + deadline-boundary scenarios; one evaluation = one run; each strategy invocation is one data-flow check; "
-            "non-trivial = run with at least one checked strategy invocation; distinct = distinct (table, scripts, values, entry)"
+            "non-trivial = run with at least one checked strategy invocation; distinct = distinct (table, scripts, values, entry); plus attempt numbering against the on_attempt_start hook, "
+            "also when an attempt hook raises in one particular attempt of execute()"
         ),
         evaluations=ctx.cnt["calls"],
         nontrivial=len(ctx.sets["nontrivial"]),
@@ -88,4 +121,24 @@ def conclude(ctx):
 
 
 def replay(data):
+    sc = data["payload"].get("scenario")
+    if data.get("key") == "wrong-attempt-number":
+        import collections
+
+        class C:
+            cnt = collections.Counter()
+            bad = []
+
+            def inc(self, *a):
+                pass
+
+            def viol(self, k, m, pl):
+                self.bad.append(m)
+
+        c = C()
+        numbering(c, sc, data["payload"]["entry"])
+        for m in c.bad:
+            print("  !!", m)
+        print("replay:", "violation reproduced" if c.bad else "no violation on this tree")
+        return 1 if c.bad else 0
     return common.replay_trace(data, [O.o_delay])
